@@ -8,11 +8,11 @@
 (***************************************************************************)
 EXTENDS Equations, Certificates, TraceKit
 
-VARIABLES l, m, fr, env, fm, bo, pm
-vars == <<l, m, fr, env, fm, bo, pm>>
+VARIABLES l, m, fr, env, fm, bo, pm, sol, prev
+vars == <<l, m, fr, env, fm, bo, pm, sol, prev>>
 
 None == [none |-> TRUE]
-Init == l = 1 /\ m = None /\ fr = None /\ env = None /\ fm = None /\ bo = None /\ pm = None
+Init == l = 1 /\ m = None /\ fr = None /\ env = None /\ fm = None /\ bo = None /\ pm = None /\ sol = None /\ prev = None
 
 Want(p) == env # None /\ \E j \in DOMAIN env.want : env.want[j] = p
 
@@ -73,7 +73,7 @@ DoBuildForce(e) ==
               c02.hits \cup c16.hits, {}, c02.rejected \/ c16.rejected)
   /\ fm' = IF e.raised # "" THEN None ELSE e.fm
   /\ bo' = e.opts
-  /\ UNCHANGED <<m, fr, env, pm>>
+  /\ UNCHANGED <<m, fr, env, pm, sol, prev>>
 
 (******************************* SolveStress ******************************)
 \* positions (into x) reported as -1 / expected to be excluded
@@ -184,7 +184,13 @@ DoSolveStress(e) ==
      IN EmitV(e, c05f \cup c16r \cup c01.fails \cup c16.fails \cup c03.fails \cup SetIf(raised /\ ~fixStress, "SOLVE.raised"),
               c01.kf \cup c03.kf \cup (IF Want("C05") THEN c05.kf ELSE {}) \cup SetIf(fixStress, "KF_FixStress:SOLVE.raised"),
               c05.hits \cup c01.hits \cup c16.hits \cup c03.hits, {}, c01.rejected \/ c03.rejected)
-  /\ UNCHANGED <<m, fr, env, fm, bo, pm>>
+  /\ sol' = IF e.raised # "" \/ fm = None \/ ~e.finite THEN None
+            ELSE [lam |-> BestLambda(fm.rows, e.b, XR(e)),
+                  contaminated |-> KF_FarFromOrigin(env, bo.fit) \/ \E k \in DOMAIN fm.rows : \E i \in InternalEndingAt(m, fr, fm.rows[k].v) :
+                         LET q == PhysOf(env, fr.ifaces[i]) IN q # 0 /\
+                            (\/ KF_TwoPointIfc(env, q) \/ KF_SignForcedEnd(env, q, fm.rows[k].v)
+                             \/ KF_LineFitPerpEnd(env, q, fm.rows[k].v, Entry(fm.rows[k], ColOf(fm, i))))]
+  /\ UNCHANGED <<m, fr, env, fm, bo, pm, prev>>
 
 (******************************* pressure (C04) ***************************)
 Rng2(q) == {q[j] : j \in DOMAIN q}
@@ -236,7 +242,7 @@ DoBuildPressure(e) ==
          kfNotch == raised /\ \E i \in InternalIdx(m, fr) : Len(fr.ifaces[i]) = 2 /\ Cardinality(SepCells(m, fr.ifaces[i])) = 1
      IN EmitV(e, c04.fails \cup SetIf(raised /\ ~kfNotch, "C04.build_raised"), SetIf(kfNotch, "KF_BorderTwoPoint:C04.build_raised"), c04.hits, {}, FALSE)
   /\ pm' = IF e.raised # "" THEN None ELSE e.pm
-  /\ UNCHANGED <<m, fr, env, fm, bo>>
+  /\ UNCHANGED <<m, fr, env, fm, bo, sol, prev>>
 
 PRows == [q \in DOMAIN pm.rows |-> LET r == pm.rows[q] IN
             [hi |-> IF r.c[1][2] = 1 THEN r.c[1][1] ELSE r.c[2][1], lo |-> IF r.c[1][2] = 1 THEN r.c[2][1] ELSE r.c[1][1], rhs |-> r.rhs]]
@@ -285,25 +291,83 @@ DoSolvePressure(e) ==
   /\ LET raised == e.raised # ""
          c04 == IF ~raised /\ pm # None /\ Want("C04") THEN C04Solve(e) ELSE [fails |-> {}, kf |-> {}, hits |-> {}, rejected |-> FALSE]
      IN EmitV(e, c04.fails \cup SetIf(raised, "C04.solve_raised"), {}, c04.hits, {}, c04.rejected)
-  /\ UNCHANGED <<m, fr, env, fm, bo, pm>>
+  /\ UNCHANGED <<m, fr, env, fm, bo, pm, sol, prev>>
 
 DoPressureLin(e) ==
   /\ e.ev = "PressureLin"
   /\ LET raised == e.raised # ""
          bad == IF raised THEN {} ELSE {c \in DOMAIN e.p3 : ~Close(e.p3[c], Mul(e.a, e.p1[c]) + Mul(e.b, e.p2[c]), 30 + Abs(e.p3[c]) \div 20000)}
      IN EmitV(e, SetIf(bad # {}, "C04.linearity") \cup SetIf(raised, "C04.linearity_raised"), {}, {"C04.linearity"}, {}, FALSE)
-  /\ UNCHANGED <<m, fr, env, fm, bo, pm>>
+  /\ UNCHANGED <<m, fr, env, fm, bo, pm, sol, prev>>
+
+(******************************* two-run equivariance (C06, C07) **********)
+\* Phys: results keyed by physical identity. Run 1 is remembered, run 2 is compared with it.
+Lookup2(pairs, key) == IF \E j \in DOMAIN pairs : pairs[j][1] = key THEN pairs[CHOOSE j \in DOMAIN pairs : pairs[j][1] = key][2] ELSE -999999999
+CoefOf(coefs, q, v) == IF \E j \in DOMAIN coefs : coefs[j][1] = q /\ coefs[j][2] = v
+                       THEN LET j == CHOOSE j \in DOMAIN coefs : coefs[j][1] = q /\ coefs[j][2] = v IN <<coefs[j][3], coefs[j][4]>>
+                       ELSE <<0, 0>>
+RotT(R, c) == <<Mul(R[1][1], c[1]) + Mul(R[2][1], c[2]), Mul(R[1][2], c[1]) + Mul(R[2][2], c[2])>>   \* R^T c
+ComparePhys(A, B) ==
+  LET kind == B.e.g.kind
+      P == IF kind = "relabel" THEN "C07" ELSE "C06"
+      both == A.sol # None /\ B.sol # None
+      cond == A.conditioned /\ B.conditioned
+      \* largest difference between corresponding coefficient pairs of the two runs (after undoing the embeddings)
+      dcs == {LET q == A.e.coefs[j][1] v == A.e.coefs[j][2]
+                  ca == RotT(A.e.g.rot, <<A.e.coefs[j][3], A.e.coefs[j][4]>>)
+                  cb == RotT(B.e.g.rot, CoefOf(B.e.coefs, q, v))
+              IN Max(Abs(ca[1] - cb[1]), Abs(ca[2] - cb[2])) : j \in DOMAIN A.e.coefs}
+      dcMax == IF dcs = {} THEN 0 ELSE Min(20000, CHOOSE d \in dcs : \A d2 \in dcs : d >= d2)
+      \* relabelling: the fits see the same points in another order (differences ~1e-4 for straight interfaces,
+      \* ~1e-9 for arcs); first-order propagation through the true system: (tolC / 3e-3) * dc * 10
+      tolX == IF kind = "relabel" THEN 200 + Mul(A.tolC, dcMax) * 3333 ELSE A.tolC + B.tolC + 200
+      tolP == IF kind = "relabel" THEN 2000 + 10 * tolX ELSE 10 * (A.tolC + B.tolC) + 2000
+      tolC2 == IF kind = "relabel" THEN 1500 ELSE 2 * TolTangent
+      tensBad == {j \in DOMAIN A.e.tens : LET q == A.e.tens[j][1] IN q = 0 \/ ~Close(A.e.tens[j][2], Lookup2(B.e.tens, q), tolX)}
+      presBad == {j \in DOMAIN A.e.pres : ~Close(A.e.pres[j][2], Lookup2(B.e.pres, A.e.pres[j][1]), tolP)}
+      coefBad == {j \in DOMAIN A.e.coefs : LET q == A.e.coefs[j][1] v == A.e.coefs[j][2]
+                                               ca == RotT(A.e.g.rot, <<A.e.coefs[j][3], A.e.coefs[j][4]>>)
+                                               cb == RotT(B.e.g.rot, CoefOf(B.e.coefs, q, v))
+                                           IN ~(Close(ca[1], cb[1], tolC2) /\ Close(ca[2], cb[2], tolC2))}
+      contaminated == both /\ (A.sol.contaminated \/ B.sol.contaminated)
+      lamPos == both /\ (A.sol.lam > 100 \/ B.sol.lam > 100)
+      \* relabelling leaves the geometry alone: defects hit both runs alike, so nothing is excused there
+      kfName == IF kind = "relabel" THEN "" ELSE IF contaminated THEN "KF_TangentDefects" ELSE IF lamPos THEN "KF_MultiplierNotRotationInvariant" ELSE ""
+      numeric == SetIf(both /\ cond /\ tensBad # {}, P \o ".tension")
+                 \cup SetIf(both /\ cond /\ Len(A.e.pres) > 0 /\ Len(A.e.pres) = Len(B.e.pres) /\ presBad # {}, P \o ".pressure")
+      structural == SetIf(A.e.internal # B.e.internal, P \o ".internal_set")
+                    \cup SetIf(A.e.junctions # B.e.junctions /\ ~contaminated, P \o ".equation_set")
+                    \cup SetIf(Len(A.e.pres) # Len(B.e.pres), P \o ".pressure_missing")
+      coefF == SetIf(A.e.junctions = B.e.junctions /\ coefBad # {}, P \o ".coefficients")
+  IN [fails |-> structural \cup (IF kfName = "" THEN numeric \cup coefF ELSE {}),
+      kf |-> IF kfName = "" THEN {} ELSE {kfName \o ":" \o c : c \in numeric \cup (IF kfName = "KF_TangentDefects" THEN coefF ELSE {})}
+             ,
+      hits |-> {P \o ".compared"} \cup SetIf(both /\ cond, P \o ".tension") \cup SetIf(Len(A.e.pres) > 0, P \o ".pressure")
+               \cup SetIf(Len(A.e.coefs) > 0, P \o ".coefficients") \cup SetIf(kfName = "" /\ both /\ cond, P \o ".clean_case"),
+      rejected |-> ~both \/ ~cond,
+      extraFails |-> IF kfName # "KF_TangentDefects" /\ kfName # "" THEN coefF ELSE {}]
+
+DoPhys(e) ==
+  /\ e.ev = "Phys"
+  /\ LET cur == [case |-> e.case, e |-> e, sol |-> sol, tolC |-> env.tolC, conditioned |-> env.conditioned]
+     IN IF e.run = 1
+        THEN EmitV(e, {}, {}, {}, {}, FALSE) /\ prev' = cur
+        ELSE /\ (IF prev # None /\ prev.case = e.case
+                 THEN LET r == ComparePhys(prev, cur) IN EmitV(e, r.fails \cup r.extraFails, r.kf, r.hits, {}, r.rejected)
+                 ELSE EmitV(e, {}, {}, {}, {}, TRUE))
+             /\ prev' = None
+  /\ UNCHANGED <<m, fr, env, fm, bo, pm, sol>>
 
 (******************************* plumbing *********************************)
-DoMesh(e)  == e.ev = "Mesh"  /\ EmitV(e, {}, {}, {}, {}, FALSE) /\ m' = e.mesh /\ UNCHANGED <<fr, env, fm, bo, pm>>
-DoFrame(e) == e.ev = "Frame" /\ EmitV(e, {}, {}, {}, {}, FALSE) /\ fr' = e.f /\ UNCHANGED <<m, env, fm, bo, pm>>
-DoEnv(e)   == e.ev = "Env"   /\ EmitV(e, {}, {}, {}, {}, FALSE) /\ env' = e /\ fm' = None /\ bo' = None /\ pm' = None /\ UNCHANGED <<m, fr>>
+DoMesh(e)  == e.ev = "Mesh"  /\ EmitV(e, {}, {}, {}, {}, FALSE) /\ m' = e.mesh /\ UNCHANGED <<fr, env, fm, bo, pm, sol, prev>>
+DoFrame(e) == e.ev = "Frame" /\ EmitV(e, {}, {}, {}, {}, FALSE) /\ fr' = e.f /\ UNCHANGED <<m, env, fm, bo, pm, sol, prev>>
+DoEnv(e)   == e.ev = "Env"   /\ EmitV(e, {}, {}, {}, {}, FALSE) /\ env' = e /\ fm' = None /\ bo' = None /\ pm' = None /\ sol' = None /\ UNCHANGED <<m, fr, prev>>
 
-DoSkip(e)  == e.ev = "Skip"  /\ EmitV(e, {}, {}, {}, {}, TRUE) /\ UNCHANGED <<m, fr, env, fm, bo, pm>>
+DoSkip(e)  == e.ev = "Skip"  /\ EmitV(e, {}, {}, {}, {}, TRUE) /\ UNCHANGED <<m, fr, env, fm, bo, pm, sol, prev>>
 
 Next == /\ l <= Len(TR)
         /\ LET e == TR[l] IN DoMesh(e) \/ DoFrame(e) \/ DoEnv(e) \/ DoBuildForce(e) \/ DoSolveStress(e) \/ DoSkip(e)
-                         \/ DoBuildPressure(e) \/ DoSolvePressure(e) \/ DoPressureLin(e)
+                         \/ DoBuildPressure(e) \/ DoSolvePressure(e) \/ DoPressureLin(e) \/ DoPhys(e)
         /\ l' = l + 1
 Spec == Init /\ [][Next]_vars
 Done == TLCGet("stats").diameter - 1 = Len(TR)
